@@ -251,6 +251,7 @@ extern "C" ssize_t recv(int fd, void *buf, size_t len, int flags)
   int e = 0;
   bool inj = false;
   if (f.kind == 'a' || f.kind == 'r' || f.kind == 'w') { r = -1; e = EAGAIN; inj = true; cnt("recv_inj_eagain"); }
+  else if (f.kind == 'e') { r = -1; e = ECONNRESET; cnt("recv_inj_error"); }      // a fatal receive error: the session must be reported closed
   else
   {
     std::size_t k = std::max<std::size_t>(1, cutLen(f, len));
@@ -375,6 +376,11 @@ extern "C" int SSL_read(SSL *ssl, void *buf, int num)
     res = f.kind == 'w' ? "w" : "r";
     cnt(f.kind == 'w' ? "SSL_read_inj_want_write" : "SSL_read_inj_want_read");
   }
+  else if (f.kind == 'e')
+  {
+    r = -1; t_injErr = SSL_ERROR_SSL; res = "e";      // a fatal TLS read error: the session must be reported closed
+    cnt("SSL_read_inj_error");
+  }
   else
   {
     int k = static_cast<int>(std::max<std::size_t>(1, cutLen(f, static_cast<std::size_t>(num))));
@@ -483,6 +489,7 @@ extern "C" int epoll_wait(int epfd, struct epoll_event *evs, int maxevents, int 
   return n;
 }
 
+static int g_soInj = 0, g_soIdx = 0;     // so=<k>: the k-th SO_ERROR probe on the traced session reports ECONNREFUSED (I/O thread only)
 extern "C" int getsockopt(int fd, int level, int optname, void *optval, socklen_t *optlen)
 {
   static auto real = realSym<int (*)(int, int, int, void *, socklen_t *)>("getsockopt");
@@ -491,6 +498,7 @@ extern "C" int getsockopt(int fd, int level, int optname, void *optval, socklen_
   {
     int e = errno;
     cnt("getsockopt_soerror_fired");
+    if (++g_soIdx == g_soInj && r == 0 && optval) { *static_cast<int *>(optval) = ECONNREFUSED; cnt("getsockopt_inj_soerror"); }
     tok(std::string("G:") + (r == 0 ? std::to_string(*static_cast<int *>(optval)) : std::string("x")));
     errno = e;
   }
@@ -629,10 +637,12 @@ struct Case
   std::size_t peerChunk = 65536;
   long peerDelayUs = 0, peerStartUs = 0;
   long long peerCloseAfter = -1;   // peer closes its end after having read this many bytes
-  bool async = false;              // every second send goes through sendAsync
+  int async = 0;                   // 1: every second send through sendAsync; 2: through sendSync; 3: send / sendAsync / sendSync / sendSyncCancellable in turn
   bool gate = false;               // nolock + gate: see the comment at pthread_mutex_lock (one accepted send = one command)
   bool nolock = false;             // senders call Transport::send concurrently (no harness mutex); payloads carry (thread, seq)
   std::vector<PeerWrite> s2;       // payloads for a SECOND live session on the same engine (not traced; cross-talk monitor)
+  PeerWrite cbSend{0, 0, 0};       // len > 0: one send issued from inside the accept / connect callback (I/O thread), whichever fires first
+  PeerWrite clSend{0, 0, 0};       // len > 0: one send issued from inside the close callback (the session is gone: accepted, never written)
   bool expectEarlyEnd = false;     // the schedule contains something that may legitimately end the session early
   bool lossy = false;              // drop-oldest backpressure policy with a small queue: bytes may be dropped by design
 };
@@ -688,9 +698,10 @@ static bool parseCase(const std::vector<std::string> &t, Case &c)
     else if (k == "pclose") { if (v == "-") c.peerCloseAfter = -1; else { if (!nat()) return false; c.peerCloseAfter = static_cast<long long>(n); } }
     else if (k == "expectend") { if (!nat()) return false; c.expectEarlyEnd = n; }
     else if (k == "lossy") { if (!nat()) return false; c.lossy = n; }
-    else if (k == "async") { if (!nat()) return false; c.async = n; }
+    else if (k == "async") { if (!nat() || n > 3) return false; c.async = static_cast<int>(n); }
     else if (k == "nolock") { if (!nat()) return false; c.nolock = n; }
     else if (k == "gate") { if (!nat()) return false; c.gate = n; }
+    else if (k == "so") { if (!nat()) return false; g_soInj = static_cast<int>(n); }
     else if (k == "gp")
     {
       g_gp.clear();
@@ -747,6 +758,14 @@ static bool parseCase(const std::vector<std::string> &t, Case &c)
         if (p.size() != 2 || !vh::parseNat(p[0], a) || !vh::parseNat(p[1], b) || a == 0) return false;
         c.echo.push_back(PeerWrite{static_cast<std::size_t>(a), static_cast<unsigned>(b), 0});
       }
+    }
+    else if (k == "cbsend" || k == "clsend")
+    {
+      if (v == "-") continue;
+      auto p = splitc(v, '.');
+      unsigned long long a, b;
+      if (p.size() != 2 || !vh::parseNat(p[0], a) || !vh::parseNat(p[1], b) || a == 0) return false;
+      (k == "cbsend" ? c.cbSend : c.clSend) = PeerWrite{static_cast<std::size_t>(a), static_cast<unsigned>(b), 0};
     }
     else if (k == "wf") { if (!parseSched(v, g_wf)) return false; }
     else if (k == "rf") { if (!parseSched(v, g_rf)) return false; }
@@ -884,6 +903,7 @@ static std::string whyName(const TransportErrorInfo &r)
   case TransportError::WriteBackpressure: return "backpressure";
   case TransportError::Connect: return "connect";
   case TransportError::TLSHandshake: return "tlsHandshake";
+  case TransportError::Timeout: return "timeout";
   default: return "other" + std::to_string(static_cast<int>(r.code));
   }
 }
@@ -922,7 +942,7 @@ static void runCase(const Case &c, SSL_CTX *peerCli, SSL_CTX *peerSrv)
   g_sessFd.store(-1); g_sessDead.store(false); g_lastMask = 0; g_registered = false;
   g_waitIdx = 0; g_sslPendK = 0; g_sslPendBuf = nullptr; g_movedRetries = 0;
   g_peerRx.store(0); g_peerWritten.store(0); g_peerDone.store(false); g_peerFd.store(-1); g_peerAbort.store(false); g_peerWritesDone.store(false);
-  g_gpIdx = 0;
+  g_gpIdx = 0; g_soIdx = 0;
 
   auto caseStart = Clock::now();
   TransportConfig cfg;
@@ -955,14 +975,28 @@ static void runCase(const Case &c, SSL_CTX *peerCli, SSL_CTX *peerSrv)
   std::string closeWhy = "-";
   std::vector<std::uint8_t> delivered;      // I/O thread only until stop()
   std::atomic<std::size_t> deliveredN{0};
-  t->onAccept([&](SessionId s, const TransportAddress &)
-  {
-    if (s == tracedSid) { tok("Ca"); acceptedCb++; sid.store(static_cast<long long>(s)); }
-    else sid2.store(static_cast<long long>(s));
-  });
-  t->onConnect([&](SessionId s, const TransportAddress &) { if (s == tracedSid) { tok("Cc"); connectedCb++; } else connected2++; });
   std::size_t echoIdx = 0;                  // I/O thread only
   Transport *tp = t.get();
+  bool cbSent = false;                      // I/O thread only
+  std::atomic<int> cbSends{0}, clSends{0};
+  auto callbackSend = [&](SessionId s)
+  {
+    // a send issued from inside the accept / connect callback, i.e. on the I/O thread in the middle of an event
+    if (cbSent || c.cbSend.len == 0 || c.nolock) return;
+    cbSent = true;
+    auto pl = mkPayload(c.cbSend.pat, c.cbSend.len);
+    std::lock_guard<std::mutex> g(g_accMx);
+    t_inCallbackSend = true;
+    bool ok = tp->send(s, iora::core::BufferView{pl.data(), pl.size()});
+    t_inCallbackSend = false;
+    if (ok) { noteAcceptedSend(c.cbSend.len, c.cbSend.pat); cbSends++; }
+  };
+  t->onAccept([&](SessionId s, const TransportAddress &)
+  {
+    if (s == tracedSid) { tok("Ca"); acceptedCb++; sid.store(static_cast<long long>(s)); callbackSend(s); }
+    else sid2.store(static_cast<long long>(s));
+  });
+  t->onConnect([&](SessionId s, const TransportAddress &) { if (s == tracedSid) { tok("Cc"); connectedCb++; callbackSend(s); } else connected2++; });
   t->onData([&](SessionId sidArg, iora::core::BufferView d, std::chrono::steady_clock::time_point)
   {
     if (sidArg != tracedSid) return;
@@ -985,7 +1019,20 @@ static void runCase(const Case &c, SSL_CTX *peerCli, SSL_CTX *peerSrv)
   });
   t->onClose([&](SessionId s, const TransportErrorInfo &r)
   {
-    if (s == tracedSid) { closeWhy = whyName(r); tok("Cx:" + closeWhy); closedCb++; }
+    if (s == tracedSid)
+    {
+      closeWhy = whyName(r); tok("Cx:" + closeWhy); closedCb++;
+      if (c.clSend.len > 0 && !c.nolock)
+      {
+        // a send issued from inside the close callback: enqueue() may accept it (token Z: not part of the expected stream), doSend finds no session
+        auto pl = mkPayload(c.clSend.pat, c.clSend.len);
+        std::lock_guard<std::mutex> g(g_accMx);
+        t_inCallbackSend = true;
+        bool ok = tp->send(s, iora::core::BufferView{pl.data(), pl.size()});
+        t_inCallbackSend = false;
+        if (ok) { g_acc.push_back("Z" + std::to_string(c.clSend.len) + "." + std::to_string(c.clSend.pat)); clSends++; }
+      }
+    }
     else closed2++;
   });
 
@@ -1131,6 +1178,10 @@ static void runCase(const Case &c, SSL_CTX *peerCli, SSL_CTX *peerSrv)
 
   std::vector<std::thread> senders;
   std::atomic<int> taggedAccepted{0};
+  std::atomic<int> apiCalls[4];
+  for (auto &a : apiCalls) a.store(0);
+  std::atomic<int> originCloses[4];
+  for (auto &a : originCloses) a.store(0);
   const auto gateBase = eng->_atomicStats.commands.load();
   {
     // only threads that really have something to send count as "others"
@@ -1172,14 +1223,23 @@ static void runCase(const Case &c, SSL_CTX *peerCli, SSL_CTX *peerSrv)
         }
         auto doSendCall = [&](const std::vector<std::uint8_t> &pl) -> bool
         {
-          // every second call goes through sendAsync (its completion callback runs synchronously and reports the enqueue result)
-          if (c.async && (idx++ % 2))
+          // which Transport entry point this call uses: 0 send, 1 sendAsync (its completion callback runs synchronously and reports
+          // the enqueue result), 2 sendSync, 3 sendSyncCancellable — all four must end in ONE engine command carrying the whole payload
+          int api = 0;
+          if (c.async == 1) api = (idx++ % 2) ? 1 : 0;
+          else if (c.async == 2) api = (idx++ % 2) ? 2 : 0;
+          else if (c.async == 3) api = static_cast<int>(idx++ % 4);
+          apiCalls[api]++;
+          iora::core::BufferView bv{pl.data(), pl.size()};
+          if (api == 1)
           {
             bool ok = false;
-            t->sendAsync(s, iora::core::BufferView{pl.data(), pl.size()}, [&ok](SessionId, const SendResult &r) { ok = r.isOk(); });
+            t->sendAsync(s, bv, [&ok](SessionId, const SendResult &r) { ok = r.isOk(); });
             return ok;
           }
-          return t->send(s, iora::core::BufferView{pl.data(), pl.size()});
+          if (api == 2) return t->sendSync(s, bv, milliseconds(5000)).isOk();
+          if (api == 3) { CancellationToken tokn; return t->sendSyncCancellable(s, bv, tokn, milliseconds(5000)).isOk(); }
+          return t->send(s, bv);
         };
         for (auto &it : c.sends)
         {
@@ -1200,7 +1260,19 @@ static void runCase(const Case &c, SSL_CTX *peerCli, SSL_CTX *peerSrv)
           else if (it.len == 0)
           {
             std::lock_guard<std::mutex> g(g_accMx);
-            if (t->close(s)) { g_acc.push_back("C"); g_accSawClose = true; }
+            // pat 0: the application's close(); pat 1..3: a close command as the TimerService callbacks enqueue it (connect timeout /
+            // TLS-handshake timeout / write stall): process() drops it when the condition it was armed for no longer holds
+            unsigned o = it.pat % 4;
+            originCloses[o]++;
+            if (o == 0) { if (t->close(s)) { g_acc.push_back("C"); g_accSawClose = true; } }
+            else
+            {
+              using E = TcpEngine;
+              bool ok = o == 1 ? eng->enqueue(E::Command::close(s, TransportError::Timeout, "Connect timeout", E::CloseOrigin::ConnectTimeout))
+                      : o == 2 ? eng->enqueue(E::Command::close(s, TransportError::TLSHandshake, "TLS handshake timeout", E::CloseOrigin::HandshakeTimeout))
+                               : eng->enqueue(E::Command::close(s, TransportError::Timeout, "Write stall timeout", E::CloseOrigin::WriteStall));
+              if (ok) g_acc.push_back("C" + std::to_string(o));
+            }
           }
           else
           {
@@ -1244,8 +1316,19 @@ static void runCase(const Case &c, SSL_CTX *peerCli, SSL_CTX *peerSrv)
   if (idleOut) all = false;
   if (!all) stall = true;
   long stallOutq = -1, stallPeerInq = -1;
+  long lostWake = 0;
   if (stall)
   {
+    // a lost wake-up: commands enqueue() accepted are still in _cmds although nothing has moved for seconds — the I/O thread sleeps
+    // in epoll_wait and nobody will wake it (read under _cmdMutex, twice 20 ms apart, so a command in flight is not counted)
+    for (int k = 0; k < 2; ++k)
+    {
+      std::size_t nq = 0;
+      { std::lock_guard<std::mutex> g(eng->_cmdMutex); nq = eng->_cmds.size(); }
+      if (nq == 0) { lostWake = 0; break; }
+      lostWake = static_cast<long>(nq);
+      sleepUs(20000);
+    }
     int v = 0;
     if (g_sessFd.load() >= 0 && !g_sessDead.load() && ::ioctl(g_sessFd.load(), SIOCOUTQ, &v) == 0) stallOutq = v;
     if (g_peerFd.load() >= 0 && ::ioctl(g_peerFd.load(), FIONREAD, &v) == 0) stallPeerInq = v;
@@ -1353,12 +1436,15 @@ static void runCase(const Case &c, SSL_CTX *peerCli, SSL_CTX *peerSrv)
   for (auto &s : g_segs) std::printf("seg %s\n", s.c_str());
   std::printf("fin peer_rx=%zu exp_total=%zu peer_diff=%lld peer_eof=%d dlv=%zu pw_written=%zu pw_total=%zu dlv_diff=%lld closed_cb=%d close_why=%s "
               "connected_cb=%d accepted_cb=%d stall=%d foreign=%d peer_hs=%d moved=%d ms=%lld stall_outq=%ld stall_peer_inq=%ld "
-              "tag_err=%lld tag_what=%s tag_frames=%d tag_accepted=%d gate_waited=%d s2=%d s2_rx=%zu s2_total=%zu s2_diff=%lld note=%s\n",
+              "tag_err=%lld tag_what=%s tag_frames=%d tag_accepted=%d gate_waited=%d s2=%d s2_rx=%zu s2_total=%zu s2_diff=%lld lostwake=%ld "
+              "api=%d.%d.%d.%d oclose=%d.%d.%d.%d cbsend=%d clsend=%d note=%s\n",
               pr.rx.size(), c.nolock ? g_expTotal.load() : expect.size(), firstDiff(pr.rx, expect), pr.eof, delivered.size(), pr.written, pwTotal,
               firstDiff(delivered, pwAll), closedCb.load(), closeWhy.c_str(), connectedCb.load(), acceptedCb.load(), stall ? 1 : 0,
               g_foreignThread.load() ? 1 : 0, pr.hsOk ? 1 : 0, g_movedRetries,
               static_cast<long long>(std::chrono::duration_cast<milliseconds>(Clock::now() - caseStart).count()), stallOutq, stallPeerInq,
-              tagErr, tagWhat.c_str(), tagFrames, taggedAccepted.load(), g_gateWaited.load(), haveS2 ? 1 : 0, pr2.rx.size(), expect2.size(), firstDiff(pr2.rx, expect2), pr.note.empty() ? "-" : pr.note.c_str());
+              tagErr, tagWhat.c_str(), tagFrames, taggedAccepted.load(), g_gateWaited.load(), haveS2 ? 1 : 0, pr2.rx.size(), expect2.size(), firstDiff(pr2.rx, expect2), lostWake,
+              apiCalls[0].load(), apiCalls[1].load(), apiCalls[2].load(), apiCalls[3].load(),
+              originCloses[0].load(), originCloses[1].load(), originCloses[2].load(), originCloses[3].load(), cbSends.load(), clSends.load(), pr.note.empty() ? "-" : pr.note.c_str());
   std::printf("end %s\n", c.id.c_str());
   std::fflush(stdout);
 }
@@ -1368,15 +1454,26 @@ static std::atomic<long long> g_caseStartMs{0};
 static void watchdog()
 {
   t_harness = true;
+  // Time is accumulated per poll and capped at 500 ms per poll: a pause of the whole process / VM does not count as a hang.
+  long long seen = 0, accMs = 0;
+  auto last = Clock::now();
   for (;;)
   {
     sleepUs(100000);
     long long s = g_caseStartMs.load();
-    if (s == 0) continue;
-    long long now = std::chrono::duration_cast<milliseconds>(Clock::now().time_since_epoch()).count();
-    if (now - s > 90000)
+    auto nowT = Clock::now();
+    long long dt = std::chrono::duration_cast<milliseconds>(nowT - last).count();
+    last = nowT;
+    if (s == 0) { seen = 0; accMs = 0; continue; }
+    if (s != seen) { seen = s; accMs = 0; }
+    accMs += std::min<long long>(dt, 500);
+    if (accMs > 90000)
     {
-      std::fputs("hang\n", stdout);
+      // is it a lost wake-up? (commands accepted by enqueue() still in the queue while nothing moves)
+      long lost = -1;
+      TcpEngine *e = g_engine;
+      if (e && e->_cmdMutex.try_lock()) { lost = static_cast<long>(e->_cmds.size()); e->_cmdMutex.unlock(); }
+      std::printf("hang lostwake=%ld\n", lost);
       std::fflush(stdout);
       _exit(97);
     }
@@ -1415,7 +1512,7 @@ int main()
       continue;
     }
     Case c;
-    g_wf = Sched{}; g_rf = Sched{}; g_hf = Sched{}; g_waitDelays.clear(); g_gp.clear();
+    g_wf = Sched{}; g_rf = Sched{}; g_hf = Sched{}; g_waitDelays.clear(); g_gp.clear(); g_soInj = 0;
     if (!parseCase(toks, c)) { std::printf("bad-op\n"); std::fflush(stdout); continue; }
     g_caseStartMs.store(std::chrono::duration_cast<milliseconds>(Clock::now().time_since_epoch()).count());
     try
